@@ -114,7 +114,8 @@ func (l *c17Line) lexeme(m c17Mark, leaf int, kinds uint32) int {
 // slots appends a text leaf of n character slots; slot i is one symbolic byte of first /
 // mid / last (by position; a one-slot leaf uses first, which is a subset of last in every
 // use), except a slot that the wide-character plan fills: none | é first | € first |
-// 😀 first | 😀 last  (tag names: none | é first | é last).
+// 😀 first | 😀 last  (tag names: none | é first | é last; a leaf that is to start with a
+// letter: none | é first | 😀 last).
 func (l *c17Line) slots(name string, n int, first, mid, last string, onlyLetter bool) {
 	if n == 0 {
 		return
